@@ -70,6 +70,7 @@ fn main() {
 
     let code = match id.as_str() {
         "C05" => dispatch(checks::c05::C05, tier, seed, replay),
+        "C09" => dispatch(checks::c09::C09, tier, seed, replay),
         "C11" => dispatch(checks::c11::C11, tier, seed, replay),
         _ => {
             eprintln!("unknown property id {id}");
